@@ -64,8 +64,17 @@ Product(stores, ids) ==
      [st |-> stores[((q - 1) \div (nf * nl)) + 1], fm |-> FormSeq[(((q - 1) \div nl) % nf) + 1],
       ly |-> LayoutSeq[((q - 1) % nl) + 1], ids |-> ids]]
 Row1(ids) == << [st |-> "view", fm |-> "row1", ly |-> "c", ids |-> ids], [st |-> "view", fm |-> "row1", ly |-> "cs", ids |-> ids] >>
+\* in-place calls into a target buffer the CALLER allocated (documented shape) in each memory layout, holding
+\* default values (pv = -1) or garbage (pv = -2); records alternately owned standard / row-strided view
+TargetLayouts == <<"c", "f", "rs", "rev", "cs">>
+Caller(ids, views) ==
+  [q \in 1..(2 * Len(TargetLayouts)) |->
+     LET tl == TargetLayouts[((q - 1) \div 2) + 1]  g == (q % 2 = 0) IN
+     [st |-> IF views /\ g THEN "view" ELSE "own", fm |-> "caller", ly |-> IF g THEN "rs" ELSE "c", ids |-> ids,
+      tl |-> tl, pv |-> IF g THEN -2 ELSE -1]]
 Prog(ids, np, views, row1) ==
-  Singles(ids, np) \o Product(IF views THEN <<"own", "view">> ELSE <<"own">>, ids) \o (IF row1 THEN Row1(ids) ELSE <<>>)
+  Singles(ids, np) \o Product(IF views THEN <<"own", "view">> ELSE <<"own">>, ids) \o Caller(ids, views)
+                   \o (IF row1 THEN Row1(ids) ELSE <<>>)
 \* short program for the mock multi-class tables (forms and layouts are covered by the real-member cases)
 Lite(ids, np) ==
   Singles(ids, np) \o [q \in 1..Len(FormSeq) |-> [st |-> "own", fm |-> FormSeq[q], ly |-> "c", ids |-> ids]]
@@ -147,7 +156,7 @@ Orderings(inst, nonneg) ==
     [fam |-> "zig4", ids |-> <<5, 1, 3, 4>>],                  \* shortest: high, below-min, low, mid
     [fam |-> "perm", ids |-> [q \in 1..8 |-> ((3 * q + inst) % 8) + 1]] }
 OrdCalls(views, row1) ==
-  << <<"own", "ref_arr", "c">>, <<"own", "own_ds", "f">>, <<"own", "dirty", "cs">> >> \o
+  << <<"own", "ref_arr", "c">>, <<"own", "own_ds", "f">>, <<"own", "dirty", "cs">>, <<"own", "caller", "c">> >> \o
   (IF views THEN << <<"view", "ref_arr", "rs">>, <<"view", "inplace", "rev">> >> ELSE <<>>) \o
   (IF row1 THEN << <<"view", "row1", "c">> >> ELSE <<>>)
 OrdProg(ids, views, row1) ==
